@@ -218,6 +218,19 @@ fn check_edits(p: &Prepared, ops: &[Op], doc: &[u8], tag_start: usize, tag_len: 
             calls,
         );
     }
+    // a LATER handler on the same element (registered second) sees the edited token as well
+    if p.cfg.handlers.len() > 1 {
+        let Some(Ev::El { name: n2, attrs: a2, ns: ns2, can_have_content: chc2, .. }) = rr.events.iter().find(|e| matches!(e, Ev::El { reg: 1, loc, .. } if loc.0 == tag_start)) else {
+            return (Some(format!("tag {:?} after {:?}: the second handler did not run", lossy(tag), op)), calls);
+        };
+        let got2: Vec<(String, String)> = a2.iter().map(|a| (a.name.clone(), a.value.clone())).collect();
+        if *n2 != name || got2 != model {
+            return (Some(format!("tag {:?} after {:?} by an earlier handler: a later handler reads name {:?} attrs {:?}, expected name {:?} attrs {:?}", lossy(tag), op, n2, got2, name, model)), calls);
+        }
+        if ns2 != exp.ns || *chc2 != exp.can_have_content {
+            return (Some(format!("tag {:?} after {:?} by an earlier handler: a later handler reads namespace {:?} / can_have_content {}, expected {:?} / {}", lossy(tag), op, ns2, chc2, exp.ns, exp.can_have_content)), calls);
+        }
+    }
     (None, calls)
 }
 
@@ -298,7 +311,11 @@ pub fn replay(case: &Value) -> Option<String> {
         }
         "edits" => {
             let ops: Vec<Op> = serde_json::from_value(case["ops"].clone()).ok()?;
-            let p = Prepared::new(base_cfg(enc.name(), ops.clone())).ok()?;
+            let mut c = base_cfg(enc.name(), ops.clone());
+            if case["two_handlers"].as_bool().unwrap_or(false) {
+                c.handlers.push(HSpec::obs(HKind::Element, "*"));
+            }
+            let p = Prepared::new(c).ok()?;
             check_edits(&p, &ops, &doc, start, len, ns).0
         }
         "h5" => {
@@ -413,26 +430,40 @@ pub fn run_check(ctx: &Ctx) -> i32 {
             }
         }
         let cfgs: Vec<Prepared> = scripts.iter().map(|sc| Prepared::new(base_cfg("UTF-8", sc.clone())).unwrap()).collect();
+        // the same scripts run by a first handler, observed by a second handler on the same element
+        let two = |sc: &Vec<Op>| {
+            let mut c = base_cfg("UTF-8", sc.clone());
+            c.handlers.push(HSpec::obs(HKind::Element, "*"));
+            c
+        };
+        let cfgs2: Vec<Prepared> = scripts.iter().map(|sc| Prepared::new(two(sc)).unwrap()).collect();
         let n3 = crate::alpha::count_upto(PIECES.len(), 3);
         par_for(n3, 4, |j| {
             let mut idx = vec![];
             crate::alpha::seq_at(j, PIECES.len(), &mut idx);
-            let (doc, start, len, ns) = build_doc(0, &idx, 0, encoding_rs::UTF_8);
-            if expectation(&doc[start..start + len], ns, encoding_rs::UTF_8).is_none() {
-                return;
-            }
-            for (sc, p) in scripts.iter().zip(&cfgs) {
-                let (m, calls) = check_edits(p, sc, &doc, start, len, ns);
-                ctx.exec(calls);
-                ctx.validated(1);
-                if let Some(msg) = m {
-                    let case = json!({"kind": "edits", "name": 0, "pieces": idx, "context": 0, "encoding": "UTF-8", "ops": sc, "doc_lossy": lossy(&doc)});
-                    let c2 = case.clone();
-                    ctx.violation(msg, case, &|| replay(&c2));
+            for ci in [0usize, 1, 6] {
+                let (doc, start, len, ns) = build_doc(0, &idx, ci, encoding_rs::UTF_8);
+                if expectation(&doc[start..start + len], ns, encoding_rs::UTF_8).is_none() {
+                    continue;
+                }
+                for (si, sc) in scripts.iter().enumerate() {
+                    for (two_handlers, p) in [(false, &cfgs[si]), (true, &cfgs2[si])] {
+                        if ci != 0 && !two_handlers {
+                            continue;
+                        }
+                        let (m, calls) = check_edits(p, sc, &doc, start, len, ns);
+                        ctx.exec(calls);
+                        ctx.validated(1);
+                        if let Some(msg) = m {
+                            let case = json!({"kind": "edits", "name": 0, "pieces": idx, "context": ci, "encoding": "UTF-8", "ops": sc, "two_handlers": two_handlers, "doc_lossy": lossy(&doc)});
+                            let c2 = case.clone();
+                            ctx.violation(msg, case, &|| replay(&c2));
+                        }
+                    }
                 }
             }
         });
-        ctx.level_done(&format!("{} edit scripts of 2-3 calls (remove / set / rename) x every <a ...> tag of <=3 pieces: one re-read reflects all of them", scripts.len()));
+        ctx.level_done(&format!("{} edit scripts of 2-3 calls (remove / set / rename) x every <a ...> tag of <=3 pieces: one re-read reflects all of them, and so does a later handler on the same element (HTML, svg, MathML integration point)", scripts.len()));
     }
     // <font> in foreign content: with a color / face / size attribute it leaves foreign content
     // (an HTML element), otherwise it is a foreign element
